@@ -57,9 +57,10 @@ RULE = ('Every server id of length 0..2 (quick) / 0..3 (thorough) over a '
         'pair of {A,B,"","-"} and (S,S) x first ending {play,drop}, second '
         'play; k=3: AAA, AAB, ABA, ABB x first two endings {play,drop}^2, '
         'plus ("-",A,A), (A,"-",A), ("","",""), (A,"",A) all play.  '
-        'Thorough: every sequence of length 1..3 over {A,B,"","-"} x '
-        '{play,drop,kick} (1884 histories) plus the quick set at protocols '
-        '47 and 340.  Every login in which the server recovered a secret is '
+        'Thorough: additionally every sequence of length 1..3 over '
+        '{A,B,"","-"} x {play,drop,kick} (1884 histories including those of '
+        'the quick set) and the quick set at protocols 47 and 340.  Every '
+        'login in which the server recovered a secret is '
         'one judged case: for an id other than "-" at least one join must '
         'be recorded during that login and every recorded argument must '
         'equal the reference hash of (id, the secret the server recovered '
@@ -363,7 +364,7 @@ def check_order_case(ctx, cps, sec, key):
     flush(ctx, cl)
 
 
-# -- part 2: the hash that is actually sent ------------------------------------
+# -- part 2: the hash that is actually sent ----------------------------------
 
 SENT_TOKEN = b'\x05\x06\x07\x08'
 SENT_A = tuple(ord(c) for c in 'srv')
